@@ -12,6 +12,8 @@
 //       fp bus pgn src len b0,b1,..   fast-packet frames with first bytes b0,b1,... (sequence id * 32 + frame counter) from
 //                                  source src, first frames announce len bytes; ParseMessages() after every frame
 //       probe p1 p2 ...            = msg 0 p1, msg 1 p1, msg 0 p2, ... reported on one line
+//       tp2 bus pgnA lenA dstA pgnB lenB dstB   two transfers of ONE source to two destinations, announced one after the other, data packets interleaved
+//       clock ms                   the clock jumps forward to the absolute time ms (e.g. to the 32-bit millisecond rollover)
 //       hold bus 0|1               1: frames of msg/tp/fp/probe only arrive in the driver (output "queued"), nothing is polled
 //       poll bus                   one ParseMessages() (reads as many waiting frames as the library's batch size allows)
 //       drain bus                  ParseMessages() until the driver is empty (a frame that is never read is a lost message)
@@ -132,16 +134,28 @@ static void inject(int b, unsigned long pgn) {
   rf.src = src;
   arrive(b, canId(6, pgn, src, 255), len, d, rf);
 }
-// a whole transport-protocol transfer (announce + every data packet) of a `len` byte payload arrives
-static void injectTp(int b, unsigned long pgn, unsigned len, unsigned dst) {
-  const unsigned src = 0x31; unsigned npk = (len + 6) / 7;
-  unsigned char d[8] = {(unsigned char)(dst == 255 ? 32 : 16), (unsigned char)(len & 0xff), (unsigned char)(len >> 8), (unsigned char)npk, 0xff,
-                        (unsigned char)(pgn & 0xff), (unsigned char)((pgn >> 8) & 0xff), (unsigned char)((pgn >> 16) & 0xff)};
-  arrive(b, canId(7, TP_CM_PGN, src, dst), 8, d, RefFrame{K_TPCM, pgn, src, dst, 0, len, "tp-transfer"});
+// a whole transport-protocol transfer (announce + every data packet) of a `len` byte payload
+struct Pending { unsigned long id; unsigned char d[8]; RefFrame rf; };
+static std::vector<Pending> tpFramesOf(unsigned long pgn, unsigned len, unsigned dst) {
+  const unsigned src = 0x31; unsigned npk = (len + 6) / 7; std::vector<Pending> v;
+  Pending cm{canId(7, TP_CM_PGN, src, dst), {(unsigned char)(dst == 255 ? 32 : 16), (unsigned char)(len & 0xff), (unsigned char)(len >> 8), (unsigned char)npk, 0xff,
+                        (unsigned char)(pgn & 0xff), (unsigned char)((pgn >> 8) & 0xff), (unsigned char)((pgn >> 16) & 0xff)}, RefFrame{K_TPCM, pgn, src, dst, 0, len, "tp-transfer"}};
+  v.push_back(cm);
   for (unsigned k = 1; k <= npk; k++) {
-    unsigned char p[8]; p[0] = (unsigned char)k;
-    for (unsigned j = 0; j < 7; j++) { unsigned i = (k - 1) * 7 + j; p[1 + j] = i < len ? (unsigned char)(i * 3 + 1) : 0xff; }
-    arrive(b, canId(7, TP_DT_PGN, src, dst), 8, p, RefFrame{k == npk ? K_TPLAST : K_TPDT, pgn, src, dst, 0, len, "tp-transfer"});
+    Pending p{canId(7, TP_DT_PGN, src, dst), {0}, RefFrame{k == npk ? K_TPLAST : K_TPDT, pgn, src, dst, 0, len, "tp-transfer"}};
+    p.d[0] = (unsigned char)k;
+    for (unsigned j = 0; j < 7; j++) { unsigned i = (k - 1) * 7 + j; p.d[1 + j] = i < len ? (unsigned char)(i * 3 + 1) : 0xff; }
+    v.push_back(p);
+  }
+  return v;
+}
+static void injectTp(int b, unsigned long pgn, unsigned len, unsigned dst) { for (auto &p : tpFramesOf(pgn, len, dst)) arrive(b, p.id, 8, p.d, p.rf); }
+// two transfers of the same source to different destinations at the same time: both announces, then the data packets alternately
+static void injectTp2(int b, unsigned long pa, unsigned la, unsigned da, unsigned long pb, unsigned lb, unsigned db) {
+  std::vector<Pending> A = tpFramesOf(pa, la, da), B = tpFramesOf(pb, lb, db);
+  for (size_t k = 0; k < A.size() || k < B.size(); k++) {
+    if (k < A.size()) arrive(b, A[k].id, 8, A[k].d, A[k].rf);
+    if (k < B.size()) arrive(b, B[k].id, 8, B[k].d, B[k].rf);
   }
 }
 
@@ -302,6 +316,17 @@ static void exec(const std::string &line0) {
     unsigned len = w.size() > 3 ? (unsigned)num(3) : 9, dst = w.size() > 4 ? (unsigned)num(4) : 255;
     injectTp(b, num(2), len, dst); C.count("tp_transfers"); if (len >= 222) C.count("tp_transfers_222_223"); if (dst != 255) C.count("tp_transfers_rts");
     C.outs(after(b, true)); return;
+  }
+  if (w[0] == "tp2" && w.size() == 8) {
+    int b = bid(1);
+    auto bad = [&](size_t i) { return !pgnOk(i) || num(i) == TP_CM_PGN || num(i) == TP_DT_PGN || !isNum(i + 1) || num(i + 1) < 9 || num(i + 1) > 223 || !isNum(i + 2) || num(i + 2) > 255; };
+    if (b < 0 || bad(2) || bad(5) || num(4) == num(7)) { C.out("bad-op"); return; }
+    injectTp2(b, num(2), (unsigned)num(3), (unsigned)num(4), num(5), (unsigned)num(6), (unsigned)num(7)); C.count("tp_concurrent_transfers_of_one_source");
+    C.outs(after(b, true)); return;
+  }
+  if (w[0] == "clock" && w.size() == 2) {
+    if (!isNum(1) || w[1].size() > 15 || strtoull(w[1].c_str(), nullptr, 10) < g_now) { C.out("bad-op"); return; }
+    g_now = strtoull(w[1].c_str(), nullptr, 10); C.out("ok"); return;
   }
   if (w[0] == "fp" && w.size() == 6) {
     int b = bid(1);
@@ -477,6 +502,10 @@ static void tpCase(Rng &R) {
     exec(S("tp %d %lu %u %u", b, R.chance(1, 2) ? 129029UL : 130820UL, len, dst));
     if (R.chance(1, 4)) exec(S("msg %d %lu", b, 127488UL));
   }
+  for (int i = 0; i < 12; i++) {   // one source, two destinations at once (BAM + RTS to the node / to a third party)
+    unsigned da = i % 3 == 0 ? 255 : i % 3 == 1 ? nodeAddr : 77, db = i % 3 == 0 ? nodeAddr : i % 3 == 1 ? 77 : 255;
+    exec(S("tp2 %d %lu %u %u %lu %u %u", (int)R.below(NBUS), 129029UL, TPLEN[R.below(sizeof TPLEN / sizeof TPLEN[0])], da, 130820UL, TPLEN[R.below(sizeof TPLEN / sizeof TPLEN[0])], db));
+  }
   C.count("tp_cases");
 }
 
@@ -496,6 +525,22 @@ static void modeCase(Rng &R, int nops) {
     else exec(fpLine(R, b, R.chance(1, 2) ? 129029UL : 130816UL, R.chance(1, 2) ? 0x51 : 0x52, (unsigned)R.range(5, 30), seq++, R.chance(3, 4) ? 0 : (int)R.range(1, NDMG - 1)));
   }
   C.count("mode_cases");
+}
+
+// all receive slots held by unfinished fast packets stamped just before the 32-bit millisecond rollover; a message completed after
+// the rollover (more than 100 ms later, so the oldest unfinished one may be given up) must still be passed on
+static void wrapCase(Rng &R) {
+  exec(S("reset 0 %lu %lu", 129029UL, 127488UL)); exec("batch ?");
+  int b = (int)R.below(NBUS);
+  for (int h = 0; h < 3; h++) exec(S("attach %d %d", h, b));
+  exec(S("cb %d 1", b));
+  uint64_t W = ((g_now >> 32) + 1) << 32;
+  exec(S("clock %llu", (unsigned long long)(W - (uint64_t)R.range(20, 90))));
+  for (unsigned i = 0; i < 5; i++) exec(S("fp %d %lu %u 20 %u", b, 129029UL, 0x60 + i, ((unsigned)R.below(8)) * 32));
+  exec(S("clock %llu", (unsigned long long)(W + (uint64_t)R.range(120, 5000))));
+  if (R.chance(1, 2)) exec(S("msg %d %lu", b, 127488UL)); else exec(S("fp %d %lu %u 9 64,65", b, 129029UL, 0x70));
+  exec(S("msg %d %lu", b, 127488UL));
+  C.count("clock_wrap_cases");
 }
 
 static void randomCase(Rng &R, int len) {
@@ -561,6 +606,7 @@ int main(int argc, char **argv) {
   }
   for (int i = 0; i < (C.thorough ? 60 : 12); i++) burstCase(R);
   for (int i = 0; i < (C.thorough ? 10 : 2); i++) tpCase(R);
+  for (int i = 0; i < (C.thorough ? 6 : 2); i++) wrapCase(R);
   for (int i = 0; i < (C.thorough ? 60 : 12); i++) modeCase(R, C.thorough ? 150 : 80);
   C.sample("bursts of 21..75 frames (messages, fast packets, TP transfers) waiting in the driver, polled 20 at a time; TP payloads of 9..223 bytes by BAM and RTS (to the node / to somebody else); handle-only-known and forwarding options set/cleared in any order with known/unknown PGNs by single frame, fast packet and TP");
   for (int i = 0; i < (C.thorough ? 40 : 8); i++) fpCase(R, C.thorough ? 120 : 60);
